@@ -34,10 +34,11 @@ ASSUMPTIONS = ASSUMPTIONS_TRANSPORT + [
 COMPONENTS = COMPONENTS_TRANSPORT
 PLAN = {
     "quick": {"budget_s": 75, "max_runs": 10 ** 7,
-              "variants": ["agreement", "agreement", "resumption", "bad_cert", "mitm", "tls_integrity", "adversary"]},
+              "variants": ["agreement", "agreement", "resumption", "bad_cert", "mitm", "tls_integrity", "adversary",
+                           "asyncio_name"]},
     "thorough": {"budget_s": 1200, "max_runs": 10 ** 9,
                  "variants": ["agreement", "agreement", "resumption", "bad_cert", "mitm", "tls_integrity",
-                              "adversary"]},
+                              "adversary", "asyncio_name"]},
 }
 
 ALPNS = (["verif"], ["verif", "other"], ["other", "verif"], ["other"], ["x1", "x2", "verif"], ["zzz"])
@@ -78,7 +79,8 @@ def configure_bad(sim, conf, is_client):
             conf.certificate, conf.certificate_chain, conf.private_key = cert, chain, key
         return
     if not is_client:
-        name = fixtures.BAD_CERTS[c.choose(len(fixtures.BAD_CERTS))]
+        names = fixtures.BAD_CERTS + fixtures.PADDED_BAD_CERTS
+        name = names[c.choose(len(names))]
         sim.bad_cert = name
         cert, chain, key = fixtures.cert_chain(name)
         conf.certificate, conf.certificate_chain, conf.private_key = cert, chain, key
@@ -90,7 +92,7 @@ PROFILES = {
                   "retry_p": 0.25, "max_ops": 4, "t_adv_max": 3.0, "fair_budget": 80.0,
                   "idle_timeouts": (10.0, 20.0)},
     "bad_cert": {"faults": FAULTS, "configure": configure_bad, "max_ops": 3, "t_adv_max": 2.0, "fair_budget": 40.0,
-                 "idle_timeouts": (10.0,)},
+                 "idle_timeouts": (10.0,), "batch_rx_p": 0.5, "datagram_sizes": tuple(range(1200, 1473, 4))},
     "mitm": {"faults": ("drop", "dup", "delay"), "max_ops": 3, "t_adv_max": 2.0, "fair_budget": 40.0,
              "idle_timeouts": (10.0,), "retry_p": 0.2},
 }
@@ -327,6 +329,9 @@ def run_resumption(seed, replay):
     store = {"tickets": {}, "client": []}
     c = ch.stream("c03")
     early = bool(c.choose(2))
+    # one run in three: the second connection reaches an impostor that has no idea of the ticket (so it performs a
+    # full handshake) and presents a certificate that must not be accepted; holding a ticket proves nothing
+    impostor = (None, None, "bad_selfsigned", "bad_unknownca", "bad_wrongname", "bad_expired")[c.choose(6)]
 
     def mk_kwargs():
         return {
@@ -365,10 +370,19 @@ def run_resumption(seed, replay):
                  "configure": configure, "t_adv_max": 2.0,
                  "schedule_extra": early_write, "wall_base": 100.0, "idle_timeouts": (20.0,)}
         prof2.update(mk_kwargs())
-        o2 = AgreementOracle(expect_resumed=True)
-        sim2 = TransportSim(ch, prof2, [WireMonitor(), o2, DeliveryGoal()])
-        reason = sim2.run()
-        if len(o2.completed) < 2 and reason not in ("step-cap", "api-exception"):
+        if impostor is not None:
+            prof2["server_cert"] = impostor
+            prof2["server_kwargs"] = {"session_ticket_fetcher": lambda label: None}
+            prof2["fair_budget"] = 25.0
+            sim2 = TransportSim(ch, prof2, [WireMonitor(), NeverCompletes(
+                ("client",), lambda sim: "it holds a ticket but the server ignores it and presents %s" % impostor)])
+            reason = sim2.run()
+            o2 = None
+        else:
+            o2 = AgreementOracle(expect_resumed=True)
+            sim2 = TransportSim(ch, prof2, [WireMonitor(), o2, DeliveryGoal()])
+            reason = sim2.run()
+        if o2 is not None and len(o2.completed) < 2 and reason not in ("step-cap", "api-exception"):
             raise Violation("c03.resumption", "second-connection-did-not-complete",
                             "the resumed connection did not complete on a fair network (%s)" % reason)
     except Violation as v:
@@ -379,6 +393,8 @@ def run_resumption(seed, replay):
     s["inconclusive"] = reason == "step-cap"
     s["aborted"] = reason == "api-exception"
     s.setdefault("probes", {})["resumption_with_0rtt" if early else "resumption_without_0rtt"] = 1
+    if impostor is not None:
+        s["probes"]["ticket_holder_meets_impostor:" + impostor] = 1
     if sim2 is not None and sim2.client.conn is not None:
         try:
             s["probes"]["early_data_accepted"] = int(bool(sim2.client.conn.tls.early_data_accepted))
@@ -409,6 +425,24 @@ def run_one(seed, tier="quick", variant=None, replay=None):
         out = c11.run_one(seed, tier=tier, variant="skip_attacks", replay=replay)
         if out.violation is not None:
             out.violation["oracle"] = "c03.authenticity-adversary"
+        return out
+    if variant == "asyncio_name":
+        # the asyncio adapter's connect(host, ...) names the server after the host it was given when the
+        # configuration has no server_name: the C19 harness (real connect()/serve() on the virtual-time loop) with
+        # clients that rely on that default while the certificate does not cover the host
+        from checks import c19
+
+        c19.NAME_MODE_P = 1.0
+        try:
+            out = c19.run_one(seed, tier=tier, variant="multi", replay=replay)
+        finally:
+            c19.NAME_MODE_P = 0.0
+        if out.violation is not None:
+            if out.violation["oracle"] == "c19.authenticity":
+                out.violation["oracle"] = "c03.authenticity-asyncio"
+            else:
+                out.violation = None  # the adapter's other properties are judged by C19, not here
+                out.summary["reason"] = "done"
         return out
     holder = {}
 
